@@ -238,6 +238,7 @@ func cmdCheck(args []string) int {
 	noReplay := fs.Bool("no-replay", false, "skip native replay (debugging only; never registered)")
 	workers := fs.Int("workers", 16, "parallel workers")
 	maxPaths := fs.Int("max-paths", 0, "stop after this many paths (debugging)")
+	budgetCap := fs.Int("budget-cap", 0, "cap every harness budget at this many seconds (smoke runs of the thorough tier)")
 	var id string
 	if len(args) > 0 && !strings.HasPrefix(args[0], "-") {
 		id = args[0]
@@ -321,6 +322,9 @@ func cmdCheck(args []string) int {
 			budget := tc.Budget
 			if budget == 0 {
 				budget = 600
+			}
+			if *budgetCap > 0 && budget > *budgetCap {
+				budget = *budgetCap
 			}
 			cfg.Deadline = time.Now().Add(time.Duration(budget) * time.Second)
 			res := eng.Explore(cfg)
